@@ -152,10 +152,62 @@ def _call_doctrans(doc):
         os.unlink(fn)
 
 
+CODE_SRCS = [
+    # signature shapes the parsers and doctrans walk with their own index arithmetic (defaults are shared between
+    # positional-only and ordinary parameters; kw-only defaults may be holes; self / cls are stripped)
+    "def f():\n    pass\n",
+    "def f(a):\n    \"\"\"\n    :param a: the a\n    \"\"\"\n    return a\n",
+    "def f(a=1, /, b=2):\n    return a\n",
+    "def scale(factor=2.0, /):\n    \"\"\"\n    :param factor: the factor\n    :type factor: ```float```\n    \"\"\"\n    return factor\n",
+    "def g(x, y=0, /, z=0, *args, key=None, **kwargs):\n    return x\n",
+    "def h(a, /, b, *, c, d=4):\n    return a\n",
+    "def k(*, a, b=1, c):\n    return a\n",
+    "def v(*args, **kwargs):\n    return args\n",
+    "async def co(a, b=1):\n    return a\n",
+    "class K(object):\n    \"\"\"K\"\"\"\n\n    def __init__(self, a=1, /, b=2, *, c=3):\n        \"\"\"\n        :param a: the a\n        \"\"\"\n        self.a = a\n\n    def m(self=None):\n        return self\n\n    @classmethod\n    def make(cls, x, y=1, /):\n        return cls\n\n    @staticmethod\n    def s(p=1, /, q=2):\n        return p\n",
+    "class E(object):\n    pass\n",
+    "class D(object):\n    x: int = 1\n    y: str\n\n    def __init__(self):\n        pass\n",
+    "def outer(a, b=(1, 2), c={'k': [1]}, d=lambda q=1, /: q):\n    def inner(z=1, /):\n        return z\n    return inner\n",
+    "def deco(a: 'int' = 1, b: 'List[str]' = None, /, *c: int, d: int = 2, **e: str) -> 'int':\n    return a\n",
+]
+
+
+def _call_code(src):
+    """The code-side entry points C11 names, on one module text: function / class parsers on every definition, then doctrans on the file"""
+    import ast as _ast
+
+    import cdd.class_.parse
+    import cdd.compound.doctrans as dt
+    import cdd.function.parse
+
+    mod = _ast.parse(src)
+    for node in _ast.walk(mod):
+        try:
+            if isinstance(node, (_ast.FunctionDef, _ast.AsyncFunctionDef)):
+                cdd.function.parse.function(node)
+            elif isinstance(node, _ast.ClassDef):
+                cdd.class_.parse.class_(node)
+                cdd.class_.parse.class_(node, merge_inner_function="__init__")
+        except Exception:
+            pass
+    fd, fn = tempfile.mkstemp(suffix=".py")
+    os.write(fd, src.encode("utf-8"))
+    os.close(fd)
+    try:
+        for style in ("google", "rest"):
+            for ta in (True, False):
+                try:
+                    dt.doctrans(filename=fn, docstring_format=style, type_annotations=ta, no_word_wrap=None)
+                except BaseException:
+                    pass
+    finally:
+        os.unlink(fn)
+
+
 def _worker(kind, items, progress_path, q):
     devnull = open(os.devnull, "w")
     sys.stdout = sys.stderr = devnull
-    fn = {"doc": _call_all, "emit": _call_emit, "doctrans": _call_doctrans}[kind]
+    fn = {"doc": _call_all, "emit": _call_emit, "doctrans": _call_doctrans, "code": _call_code}[kind]
     with open(progress_path, "wt") as pf:
         for i, it in enumerate(items):
             pf.seek(0)
@@ -223,13 +275,14 @@ def watchdog(tier):
     chunks += [("emit", emits[i:i + 40], 30) for i in range(0, len(emits), 40)]
     dd = [d for d in docs if len(d) > 0][:: max(1, len(docs) // (150 if tier == "quick" else 1500))]
     chunks += [("doctrans", dd[i:i + 10], 60) for i in range(0, len(dd), 10)]
+    chunks += [("code", [c_], 40) for c_ in CODE_SRCS]
     res = common.tmap(_chunk_job, chunks)
     ev = sum(r[0] for r in res)
     hangs = [(c[0], r[1]) for c, r in zip(chunks, res) if r[1] is not None]
     return {
         "name": "watchdog on the real parsers / emitters / doctrans (bounded, NOT counted as proved)",
-        "bound": "all docstrings of <= %d tokens over a %d-token alphabet through split + parse + emit(3 styles x 2 indents) + re-parse; %d interface descriptions x 3 styles x 3 indents x 2 whitespace modes through emit.docstring; %d generated modules through doctrans 3 styles x 3 times; a call that does not return within 8 s alone is a hang"
-        % (3 if tier == "quick" else 4, len(TOKENS), len(emits), len(dd)),
+        "bound": "all docstrings of <= %d tokens over a %d-token alphabet through split + parse + emit(3 styles x 2 indents) + re-parse; %d interface descriptions x 3 styles x 3 indents x 2 whitespace modes through emit.docstring; %d generated modules through doctrans 3 styles x 3 times; %d modules of awkward signatures (positional-only defaults, kw-only holes, self/cls, nested, async) through function.parse / class_.parse (+ merge_inner_function) / doctrans; a call that does not return within 8 s alone is a hang"
+        % (3 if tier == "quick" else 4, len(TOKENS), len(emits), len(dd), len(CODE_SRCS)),
         "rule": "distinct inputs; non-trivial = non-empty text",
         "evaluations": ev,
         "distinct_nontrivial": max(0, ev - 1),
